@@ -303,6 +303,13 @@ func (s *Sim) stepUpgrade(st Step) bool {
 			if m := s.oracles.migrated[name]; m != nil && !m.upgraded {
 				m.upgraded = true
 				m.upgradeSeq = s.seq
+				// the migrated set must carry the built-in set's pod template unchanged:
+				// any difference makes the controller record a new revision and roll the pods
+				if as, ok := Peek[*asv1.StatefulSet](s.Store, KSet, NS, name); ok {
+					if got := templateContent(&as.Spec.Template); !sameTemplate(got, m.tmpl) {
+						s.violate("C18", "C18.data-differs", "template-changed-by-upgrade", fmt.Sprintf("the Advanced StatefulSet %s created by the upgrade does not carry the built-in set's pod template", name))
+					}
+				}
 			}
 			s.count("probe.upgrade_succeeded")
 		} else {
